@@ -116,6 +116,15 @@ pub(in crate::layer) fn delete_layer<P: AsRef<Path>>(
     default_on_not_found(remove_dir_recursively(&layer_dir))?;
     default_on_not_found(fs::remove_file(layer_toml))?;
 
+    // SBOM files live next to the layer directory and belong to the layer as well.
+    for format in SBOM_FORMATS {
+        default_on_not_found(fs::remove_file(cnb_sbom_path(
+            format,
+            layers_dir.as_ref(),
+            layer_name,
+        )))?;
+    }
+
     Ok(())
 }
 
